@@ -24,7 +24,9 @@ ASSUMPTIONS = [
     "a hard kill is modelled as os._exit at a Python-level point (before / in the middle of / after a file write, after a manifest print): user-space buffers are lost as under SIGKILL; a kill inside a write() system call (torn manifest line) cannot be injected from Python",
     "DataLoader worker interleavings are perturbed by drawn per-item delays, not enumerated",
     "torch.save output is byte-deterministic for equal tensors (checked by the worker-count clause itself)",
-    "the tool runs in a fork()ed child of a process that has torch imported (the console script is a thin wrapper)",
+    "the tool runs in a fork()ed child of a process that has torch imported (the console script is a thin wrapper); in half of the "
+    "generated cases and a third of the grid the invocations after the interruption (resume, other worker counts) run in a new "
+    "interpreter with another PYTHONHASHSEED instead - a re-invocation shares no string-hash salt, ids or imports with the interrupted one",
 ]
 
 SENTINEL = b"sentinel-not-a-torch-file"
@@ -164,7 +166,10 @@ def check_crash(case):
         for utt in listed:
             with open(os.path.join(out5, utt + ".pt"), "wb") as f:
                 f.write(SENTINEL)
-        r5 = cli_crash.run_tool(_args(case, mp, out5, man5, 0))
+        # a resume is a new invocation: optionally a new interpreter with its own string-hash salt (fork()ed children
+        # share the harness's), so that per-process values leaking into the per-utterance seeds are seen
+        fresh = case.get("fresh")
+        r5 = cli_crash.run_tool(_args(case, mp, out5, man5, 0), fresh=None if fresh is None else 7 * fresh + 1)
         require(r5["status"] == 0, "{}: resume failed: status {!r} {}", tag, r5["status"], r5["reports"][-1:])
         files5 = _dir_bytes(out5)
         for utt in listed:
@@ -175,7 +180,7 @@ def check_crash(case):
             if utt not in listed:
                 require(files5.get(utt + ".pt") == ref[utt + ".pt"], "{}: after resume {} differs from the uninterrupted run (same --seed, dither {})", tag, utt, case["dither"])
         # --- I3: plain resume of the same command
-        r3 = cli_crash.run_tool(_args(case, mp, out, manifest, workers))
+        r3 = cli_crash.run_tool(_args(case, mp, out, manifest, workers), fresh=None if fresh is None else 7 * fresh + 2)
         require(r3["status"] == 0, "{}: re-running the same command failed: status {!r} {}", tag, r3["status"], r3["reports"][-1:])
         files = _dir_bytes(out)
         require(sorted(files) == sorted(ref), "{}: after resume the directory holds {}, an uninterrupted run {}", tag, sorted(files), sorted(ref))
@@ -186,12 +191,15 @@ def check_crash(case):
     labels = ["phase=" + crash["phase"], "kind=" + crash["kind"], "workers=%d" % workers, "n=%d" % len(ids)]
     if not crashed:
         labels.append("crash-point-not-reached")
+    labels.append("resume in a new interpreter" if fresh is not None else "resume in a fork")
     return {"nontrivial": crashed and k >= 1 and case["dither"] > 0, "labels": labels}
 
 
 def check_history(case):
     """Up to three successive crashes, then a clean run."""
     workers = case.get("workers", 0)
+    if workers and any(c["phase"] == "in_compute" for c in case["crashes"]):
+        raise Discard()  # with worker processes the items are computed (and counted) outside the main process
     with tempfile.TemporaryDirectory(prefix="verif_c10_") as td:
         mp, ids = _setup(case, td)
         ref, _ = _reference(case, td, mp)
@@ -209,7 +217,8 @@ def check_history(case):
                 _check_after_crash(tag, ref, out, manifest, completed, ids)
             else:
                 break
-        r3 = cli_crash.run_tool(_args(case, mp, out, manifest, workers))
+        fresh = case.get("fresh")
+        r3 = cli_crash.run_tool(_args(case, mp, out, manifest, workers), fresh=None if fresh is None else 7 * fresh + 3)
         require(r3["status"] == 0, "final clean run failed: status {!r} {}", r3["status"], r3["reports"][-1:])
         files = _dir_bytes(out)
         require(sorted(files) == sorted(ref), "after the final run the directory holds {}, an uninterrupted run {}", sorted(files), sorted(ref))
@@ -228,7 +237,8 @@ def check_workers(case):
         for w in case["worker_counts"]:
             out = os.path.join(td, "w%d" % w)
             man = os.path.join(td, "man_w%d.txt" % w)
-            r = cli_crash.run_tool(_args(case, mp, out, man if case.get("with_manifest") else None, w), delays=case.get("delays"))
+            r = cli_crash.run_tool(_args(case, mp, out, man if case.get("with_manifest") else None, w), delays=case.get("delays"),
+                                   fresh=None if case.get("fresh") is None else 7 * case["fresh"] + w)
             require(r["status"] == 0, "--num-workers {} failed: status {!r} {}", w, r["status"], r["reports"][-1:])
             files = _dir_bytes(out)
             require(sorted(files) == sorted(ref), "--num-workers {} stored {}, --num-workers 0 stored {}", w, sorted(files), sorted(ref))
@@ -251,6 +261,8 @@ def _base():
         ids=st.integers(0, 3),
         dither=st.sampled_from([1.0, 1.0, 5.0]),
         comp=st.sampled_from([True, True, False]),
+        # later invocations (resume / other worker count) in a new interpreter with another PYTHONHASHSEED, or in a fork
+        fresh=st.sampled_from([None, None, 1, 2]),
     )
 
 
@@ -275,6 +287,8 @@ def _history_cases(draw):
     case["crashes"] = draw(st.lists(st.fixed_dictionaries({
         "k": st.integers(0, 2), "phase": st.sampled_from(cli_crash.PHASES), "kind": st.sampled_from(cli_crash.KINDS)}), min_size=2, max_size=3))
     case["workers"] = draw(st.sampled_from([0, 0, 0, 2]))
+    if any(c["phase"] == "in_compute" for c in case["crashes"]):
+        case["workers"] = 0  # the fault is injected in the process that computes the item
     return case
 
 
@@ -302,19 +316,20 @@ def _grid(tier):
                         if w and phase == "in_compute":
                             continue
                         yield {"lens": lens_all[:n], "seed": (11 + n) * (k % 2), "ids": n + k, "blank_lines": bool((n + k) % 2), "dither": 1.0, "comp": True,
-                               "crash": {"k": k, "phase": phase, "kind": kind}, "workers": w, "delays": [7, 0, 3] if w else None}
+                               "crash": {"k": k, "phase": phase, "kind": kind}, "workers": w, "delays": [7, 0, 3] if w else None,
+                               "fresh": (1 + k) if (k + cli_crash.PHASES.index(phase) + (kind == "soft")) % 3 == 0 else None}
 
 
 def clauses(tier):
     return [
         Clause("crash_resume", check_crash,
                "generated single crash point; non-trivial = the fault fired with a non-empty completed prefix (k >= 1) and dither on",
-               _crash_cases, quick=14, thorough=600, shrink_quick=True,
+               _crash_cases, quick=16, thorough=600, shrink_quick=True, quick_shards=8,
                enumerate=_grid, enum_name="crash_point_grid"),
         Clause("crash_history", check_history,
                "2-3 successive crashes before the final clean run; non-trivial = at least two faults fired",
-               _history_cases, quick=6, thorough=300),
+               _history_cases, quick=8, thorough=300, quick_shards=4),
         Clause("worker_counts", check_workers,
                "uninterrupted runs with --num-workers 1..3 and drawn per-item delays vs --num-workers 0; non-trivial = >= 2 utterances, dither on",
-               _worker_cases, quick=4, thorough=150),
+               _worker_cases, quick=8, thorough=150, quick_shards=4),
     ]
